@@ -36,6 +36,8 @@ type vwTap struct {
 
 func newDiscardLogger() *log.Logger { return log.New(io.Discard, "", 0) }
 
+var vwDiscard = newDiscardLogger()
+
 func newVwTap() *vwTap { return &vwTap{pk: make(chan *Packet), st: make(chan net.Conn)} }
 func (t *vwTap) FinalAdvertiseAddr(string, int) (net.IP, int, error) {
 	return net.IP{10, 0, 0, 100}, 7946, nil
